@@ -47,9 +47,11 @@ Definition parse_abbr (jsx : bool) (env : cenv) (max_repeat : option N) (s : str
 
 (* what a snippet definition is parsed with: parse(snippet, config) passes the Config
    object as options: jsx is off, text is user_config['text'] (cleared by markup.parse
-   when it is truthy), max_repeat is user_config['max_repeat'] *)
+   when it is not None), max_repeat is user_config['max_repeat'] *)
+(* `if text is not None` (repaired ce85773: the test was `if text`, so '' and [] were left in place and every snippet
+   definition absorbed the empty text); the name is kept from the truthiness test it replaces *)
 Definition text_truthy (t : wtext) : bool :=
-  match t with WNone => false | WStr [] => false | WList [] => false | _ => true end.
+  match t with WNone => false | _ => true end.
 Definition snippet_env (cfg : mconfig) : cenv :=
   mkCenv (if text_truthy (mc_text cfg) then WNone else mc_text cfg) (mc_variables cfg) (mc_href cfg).
 
